@@ -1,7 +1,5 @@
 //! One module per property.
-pub mod c01;
-
-use crate::runner::{load_case_bytes, Collector};
+use crate::runner::{load_case_bytes, Collector, Failure};
 
 pub fn scale(tier: &str, quick: u64, thorough: u64) -> u64 {
     if tier == "thorough" {
@@ -11,37 +9,51 @@ pub fn scale(tier: &str, quick: u64, thorough: u64) -> u64 {
     }
 }
 
-pub fn run(id: &str, tier: &str, seed: u64) -> i32 {
-    match id {
-        "C01" => c01::run(tier, seed),
-        _ => {
-            eprintln!("unknown property {}", id);
-            2
+macro_rules! props {
+    ($($id:literal => $m:ident),* $(,)?) => {
+        $(pub mod $m;)*
+        pub fn run(id: &str, tier: &str, seed: u64) -> i32 {
+            match id {
+                $($id => $m::run(tier, seed),)*
+                _ => {
+                    eprintln!("unknown property {}", id);
+                    2
+                }
+            }
         }
-    }
+        fn replay_case(id: &str, sub: &str, bytes: &[u8], col: &mut Collector) -> Option<Result<(), Failure>> {
+            match id {
+                $($id => Some($m::replay(sub, bytes, col)),)*
+                _ => None,
+            }
+        }
+    };
+}
+
+props! {
+    "C01" => c01,
+    "C02" => c02,
+    "C08" => c08,
 }
 
 pub fn replay(id: &str, path: &str) -> i32 {
     let Some(bytes) = load_case_bytes(path) else {
-        eprintln!("cannot read choice_bytes from {}", path);
+        eprintln!("cannot read choice_bytes from {} (cases found by exhaustive enumeration carry their parameters in 'case' instead)", path);
         return 2;
     };
     let v: serde_json::Value = serde_json::from_str(&std::fs::read_to_string(path).unwrap()).unwrap();
     let sub = v["sub_check"].as_str().unwrap_or("").to_string();
     let mut col = Collector::default();
-    let r = match id {
-        "C01" => c01::replay(&sub, &bytes, &mut col),
-        _ => {
+    match replay_case(id, &sub, &bytes, &mut col) {
+        None => {
             eprintln!("unknown property {}", id);
-            return 2;
+            2
         }
-    };
-    match r {
-        Ok(()) => {
+        Some(Ok(())) => {
             println!("replay {}: property holds on this case", path);
             0
         }
-        Err(f) => {
+        Some(Err(f)) => {
             println!("replay {}: {}", path, f.msg);
             println!("{}", serde_json::to_string_pretty(&f.case).unwrap());
             println!("VIOLATION property={} replay={}", id, path);
